@@ -3,6 +3,8 @@ package rules
 import (
 	"go/token"
 	"go/types"
+	"sort"
+	"strconv"
 	"strings"
 
 	"golang.org/x/tools/go/ssa"
@@ -23,7 +25,7 @@ func init() {
 		Explanation: `R12.1 end of series on every path: writeMessages and the empty-new-file shortcut of Do end with a Control whose Eof is true; R07.1 (shared) partition arithmetic cannot divide by zero; ` +
 			`R12.2 old-offset accounting in IndividualPatchContext.Apply: the cache is positioned at OldOffset before the add phase and every success path advances OldOffset by len(Add) (when non-empty) and by Seek; ` +
 			`R12.3 the read cache's slot bookkeeping: a chunk is stored in a slot whose allocation is free, the slot is marked, eviction (registered with the LRU) frees exactly the evicted chunk's slot, Reset frees all slots and purges; ` +
-			`R15.3 (shared) matches reach the writer through a single sender in block order. NOT decided: that add+copy tile the new file, the suffix-array search, index arithmetic of the cache's Read.`,
+			`R15.3 (shared) matches reach the writer through a single sender in block order; R12.4 suffix sorting and searching only on non-empty input; R12.5 the scan-block count and scan-block size (found by role in the worker literal) are each computed from the other whenever they are set, or the other is recomputed before the workers start; R16.8 (shared) helper goroutines are waited for only after they were released; R10.swallow (shared) a failed chunk/storage call never ends in success. NOT decided: that add+copy tile the new file, the suffix-array search, index arithmetic of the cache's Read.`,
 		Run: runC12,
 	})
 }
@@ -566,6 +568,9 @@ func ruleEndOfSeries(c *core.Ctx, rule string) {
 }
 
 func runC12(c *core.Ctx) {
+	ruleNoSwallowedLayerErrors(c, "R10.swallow", moduleErrCallee, "/pwr", "/pwr/patcher", "/pwr/bowl", "/pwr/rediff", "/pwr/overlay", "/wire", "/wsync", "/bsdiff", "/bsdiff/lrufile", "/multiread", "/ctxcopy")
+	ruleNoJoinBeforeRelease(c, "R16.8", 3, 1, "/bsdiff")
+	ruleBlockLayoutCoupled(c, "R12.5")
 	c.Rule("R12.1", "end-of-series on every path")
 	c.Rule("R07.1", "no division by a possibly-zero quotient (shared)")
 	c.Rule("R12.2", "old offset accounting in Apply")
@@ -800,4 +805,310 @@ func runC12(c *core.Ctx) {
 	}
 	c.Check(allFree && purge, "R12.3", core.FnName(rst), "Reset frees all slots and purges the LRU", rst.Pos(), "allocations[i] = -1 for all i; lru.Purge()", "Reset does not free every slot and purge the LRU: chunks of the previous file are served for the next one")
 	_ = types.Typ
+}
+
+// ruleBlockLayoutCoupled is R12.5: the differ cuts the new file into numBlocks scan blocks of blockSize bytes
+// (the last one takes the rest); the workers slice the new buffer by blockSize*index and treat index
+// numBlocks-1 as the last block. "Matches tile each scan block exactly" needs the two numbers to describe the
+// same tiling: whenever one of them is (re)defined it is computed from the other, or the other is recomputed
+// from it before the workers start. The two variables are found by role in the worker literal: the one
+// multiplied with the block index received from the work channel to make the slice bound, and the one the
+// index is compared with. Not decided: that the arithmetic of the definition is the right one (ceil vs floor).
+func ruleBlockLayoutCoupled(c *core.Ctx, rule string) {
+	c.Rule(rule, "scan-block count and scan-block size are derived one from the other")
+	do := c.P.Fn("bsdiff", "DiffContext.Do")
+	if do == nil {
+		c.Missing(rule, "bsdiff.(*DiffContext).Do", "not found")
+		return
+	}
+	dname := core.FnName(do)
+	intCell := func(v ssa.Value) *ssa.Alloc {
+		ld, ok := v.(*ssa.UnOp)
+		if !ok || ld.Op != token.MUL {
+			return nil
+		}
+		a, ok := core.CellRoot(ld.X).(*ssa.Alloc)
+		if !ok || a.Parent() != do {
+			return nil
+		}
+		if b, ok := a.Type().(*types.Pointer).Elem().Underlying().(*types.Basic); !ok || b.Info()&types.IsInteger == 0 {
+			return nil
+		}
+		return a
+	}
+	// operand closure of a value: the int cells of Do it loads, and whether it uses a received value
+	var deps func(v ssa.Value, cells map[*ssa.Alloc]bool, recv *bool, seen map[ssa.Value]bool)
+	deps = func(v ssa.Value, cells map[*ssa.Alloc]bool, recv *bool, seen map[ssa.Value]bool) {
+		if v == nil || seen[v] {
+			return
+		}
+		seen[v] = true
+		if a := intCell(v); a != nil {
+			cells[a] = true
+			return
+		}
+		switch x := v.(type) {
+		case *ssa.BinOp:
+			deps(x.X, cells, recv, seen)
+			deps(x.Y, cells, recv, seen)
+		case *ssa.UnOp:
+			if x.Op == token.ARROW {
+				*recv = true
+				return
+			}
+			deps(x.X, cells, recv, seen)
+		case *ssa.Convert:
+			deps(x.X, cells, recv, seen)
+		case *ssa.ChangeType:
+			deps(x.X, cells, recv, seen)
+		case *ssa.Phi:
+			for _, e := range x.Edges {
+				deps(e, cells, recv, seen)
+			}
+		case *ssa.Extract:
+			deps(x.Tuple, cells, recv, seen)
+		case *ssa.Parameter:
+			// a goroutine parameter is not the work item
+		}
+	}
+	var sizeCell, countCell *ssa.Alloc
+	var goInstrs []ssa.Instruction
+	core.Instrs(do, func(in ssa.Instruction) {
+		if g, ok := in.(*ssa.Go); ok {
+			goInstrs = append(goInstrs, g)
+		}
+	})
+	for _, lit := range core.WithAnons(do)[1:] {
+		// the slice bound made of cell * received index
+		core.Instrs(lit, func(in ssa.Instruction) {
+			sl, ok := in.(*ssa.Slice)
+			if !ok || sl.Low == nil {
+				return
+			}
+			for _, o := range core.Origins(sl.Low) {
+				mul, ok := o.(*ssa.BinOp)
+				if !ok || mul.Op != token.MUL {
+					continue
+				}
+				for _, pair := range [][2]ssa.Value{{mul.X, mul.Y}, {mul.Y, mul.X}} {
+					a := intCell(pair[0])
+					if a == nil {
+						continue
+					}
+					cells, recv := map[*ssa.Alloc]bool{}, false
+					deps(pair[1], cells, &recv, map[ssa.Value]bool{})
+					if recv {
+						sizeCell = a
+					}
+				}
+			}
+		})
+	}
+	if sizeCell != nil {
+		for _, lit := range core.WithAnons(do)[1:] {
+			core.Instrs(lit, func(in ssa.Instruction) {
+				bo, ok := in.(*ssa.BinOp)
+				if !ok {
+					return
+				}
+				switch bo.Op {
+				case token.EQL, token.NEQ, token.LSS, token.LEQ, token.GTR, token.GEQ:
+				default:
+					return
+				}
+				for _, pair := range [][2]ssa.Value{{bo.X, bo.Y}, {bo.Y, bo.X}} {
+					c1, r1 := map[*ssa.Alloc]bool{}, false
+					deps(pair[0], c1, &r1, map[ssa.Value]bool{})
+					c2, r2 := map[*ssa.Alloc]bool{}, false
+					deps(pair[1], c2, &r2, map[ssa.Value]bool{})
+					if r1 && len(c1) == 0 && !r2 && len(c2) == 1 {
+						for a := range c2 {
+							// the worker's comparison, not the dispatcher's loop bound: the literal also slices
+							if a != sizeCell && containsSliceBy(lit, sizeCell, intCell) {
+								countCell = a
+							}
+						}
+					}
+				}
+			})
+		}
+	}
+	if sizeCell == nil || countCell == nil {
+		c.Missing(rule, dname, "no worker literal that slices by <size variable> * <received block index> and compares the index with a <count variable>")
+		return
+	}
+	name := map[*ssa.Alloc]string{sizeCell: sizeCell.Comment, countCell: countCell.Comment}
+	other := map[*ssa.Alloc]*ssa.Alloc{sizeCell: countCell, countCell: sizeCell}
+	storesTo := func(a *ssa.Alloc) ipred {
+		return func(in ssa.Instruction) bool {
+			st, ok := in.(*ssa.Store)
+			return ok && st.Addr == ssa.Value(a)
+		}
+	}
+	// the values a variable is given: the leaves of the stored values (phis expanded), the phis themselves,
+	// and the loads of its cell. After a helper was expanded into Do the variables of the helper are SSA
+	// registers, and "computed from the other variable" means "from one of the other variable's values".
+	leaves := func(v ssa.Value) (out []ssa.Value, phis []ssa.Value) {
+		seen := map[ssa.Value]bool{}
+		var walk func(v ssa.Value)
+		walk = func(v ssa.Value) {
+			if seen[v] {
+				return
+			}
+			seen[v] = true
+			if phi, ok := v.(*ssa.Phi); ok {
+				phis = append(phis, phi)
+				for _, e := range phi.Edges {
+					walk(e)
+				}
+				return
+			}
+			out = append(out, v)
+		}
+		walk(v)
+		return
+	}
+	type fam struct {
+		vals   map[ssa.Value]bool
+		consts map[int64]bool
+	}
+	family := map[*ssa.Alloc]*fam{}
+	for _, a := range []*ssa.Alloc{sizeCell, countCell} {
+		f := &fam{vals: map[ssa.Value]bool{}, consts: map[int64]bool{}}
+		for _, in := range allInstrs(do, storesTo(a)) {
+			ls, ps := leaves(in.(*ssa.Store).Val)
+			for _, l := range ls {
+				if k, isC := core.ConstInt(l); isC {
+					f.consts[k] = true
+				} else {
+					f.vals[l] = true
+				}
+			}
+			for _, p := range ps {
+				f.vals[p] = true
+			}
+		}
+		family[a] = f
+	}
+	var closureHits func(v ssa.Value, f *fam, a *ssa.Alloc, seen map[ssa.Value]bool) bool
+	closureHits = func(v ssa.Value, f *fam, a *ssa.Alloc, seen map[ssa.Value]bool) bool {
+		if v == nil || seen[v] {
+			return false
+		}
+		seen[v] = true
+		if intCell(v) == a {
+			return true
+		}
+		if f.vals[v] {
+			return true
+		}
+		if k, isC := core.ConstInt(v); isC {
+			return f.consts[k] && k > 1 // 0 and 1 are everybody's constants
+		}
+		switch x := v.(type) {
+		case *ssa.BinOp:
+			return closureHits(x.X, f, a, seen) || closureHits(x.Y, f, a, seen)
+		case *ssa.UnOp:
+			if x.Op == token.MUL {
+				return false
+			}
+			return closureHits(x.X, f, a, seen)
+		case *ssa.Convert:
+			return closureHits(x.X, f, a, seen)
+		case *ssa.ChangeType:
+			return closureHits(x.X, f, a, seen)
+		case *ssa.Phi:
+			for _, e := range x.Edges {
+				if closureHits(e, f, a, seen) {
+					return true
+				}
+			}
+		}
+		return false
+	}
+	dependsOn := func(st *ssa.Store, a *ssa.Alloc) bool {
+		ls, _ := leaves(st.Val)
+		if len(ls) == 0 {
+			return false
+		}
+		for _, l := range ls {
+			// the operands of the leaf, not the leaf itself (which is in its own variable's family)
+			hit := false
+			switch x := l.(type) {
+			case *ssa.BinOp:
+				hit = closureHits(x.X, family[a], a, map[ssa.Value]bool{}) || closureHits(x.Y, family[a], a, map[ssa.Value]bool{})
+			default:
+				hit = closureHits(l, family[a], a, map[ssa.Value]bool{})
+			}
+			if !hit {
+				return false
+			}
+		}
+		return true
+	}
+	isEnd := func(in ssa.Instruction) bool {
+		if isReturn(in) {
+			return true
+		}
+		_, ok := in.(*ssa.Go)
+		return ok
+	}
+	n := 0
+	for _, x := range []*ssa.Alloc{sizeCell, countCell} {
+		y := other[x]
+		for _, in := range allInstrs(do, storesTo(x)) {
+			st := in.(*ssa.Store)
+			n++
+			if dependsOn(st, y) {
+				c.Check(true, rule, dname, "definition of "+name[x]+" #"+ordinalOf(do, in, storesTo(x)), core.InstrPos(in), "computed from "+name[y], "")
+				continue
+			}
+			// not computed from the other: the other one (or this one) is recomputed before the workers start
+			redo := func(i ssa.Instruction) bool {
+				s2, ok := i.(*ssa.Store)
+				if !ok || i == in {
+					return false
+				}
+				if s2.Addr == ssa.Value(x) {
+					return true
+				}
+				return s2.Addr == ssa.Value(y) && dependsOn(s2, x)
+			}
+			p := core.FindPath(do, in, isEnd, redo)
+			c.Check(p == nil, rule, dname, "definition of "+name[x]+" #"+ordinalOf(do, in, storesTo(x)), core.InstrPos(in),
+				"computed from "+name[y]+", or "+name[y]+" is recomputed from it before the workers start",
+				"the scan-block "+name[x]+" is set without regard to "+name[y]+" and "+name[y]+" is not recomputed from it: the workers' last-block rule (index == "+name[countCell]+"-1 takes what is left) no longer matches the blocks handed out, so a block is sliced past the buffer (negative or oversized length: a panic in a goroutine) or part of the new file is never scanned").Path = c.P.PathStrings(p)
+		}
+	}
+	c.Floor(rule, "definitions of the block size and block count", n, 2)
+}
+
+func containsSliceBy(lit *ssa.Function, cell *ssa.Alloc, intCell func(ssa.Value) *ssa.Alloc) bool {
+	found := false
+	core.Instrs(lit, func(in ssa.Instruction) {
+		if bo, ok := in.(*ssa.BinOp); ok && bo.Op == token.MUL {
+			if intCell(bo.X) == cell || intCell(bo.Y) == cell {
+				found = true
+			}
+		}
+	})
+	return found
+}
+
+// ordinalOf numbers the instructions matching pred in source order, so that an obligation's key does not
+// depend on line numbers.
+func ordinalOf(fn *ssa.Function, in ssa.Instruction, pred ipred) string {
+	var all []ssa.Instruction
+	core.Instrs(fn, func(i ssa.Instruction) {
+		if pred(i) {
+			all = append(all, i)
+		}
+	})
+	sort.SliceStable(all, func(i, j int) bool { return all[i].Pos() < all[j].Pos() })
+	for i, x := range all {
+		if x == in {
+			return strconv.Itoa(i + 1)
+		}
+	}
+	return "?"
 }
